@@ -203,6 +203,8 @@ Kernel(fn, s) ==
     \*  nothing is smaller than a NaN and a NaN is smaller than nothing)
     [] fn = "changes"           -> IF \A i \in 1..Len(s) : s[i].k # "op" THEN I(Cardinality({i \in 2..Len(s) : s[i] # s[i-1]})) ELSE Opaque
     [] fn = "resets"            -> IF \A i \in 1..Len(s) : s[i].k # "op" THEN I(Cardinality({i \in 2..Len(s) : Cmp("<", s[i], s[i-1]) = "T"})) ELSE Opaque
+    \* the difference of the last two samples (no extrapolation, no counter semantics)
+    [] fn = "idelta"            -> IF Len(s) >= 2 THEN Arith("-", s[Len(s)], s[Len(s) - 1]) ELSE Opaque
     [] OTHER                    -> Opaque
 
 \* ------------------------------------------------------------------ node typing
